@@ -32,12 +32,12 @@ def gen_case(rng, tier, i):
             approx = True
     if spec['dvs'] and rng.random() < 0.45:
         spec['driver_coloring'] = True
-    if spec.get('approx_groups') and rng.random() < 0.7:
-        spec['group_coloring'] = sorted(spec['approx_groups'])
-    elif not coupled and not spec.get('approx_groups') and rng.random() < 0.15:
+    if not coupled and not spec.get('approx_groups') and rng.random() < 0.3:
         # the whole model approximated and coloured
+        # (OpenMDAO supports a coloring of an approximated group only for the top-level model)
         spec['approx_groups'] = {'': rng.choice(['fd', 'cs'])}
-        spec['group_coloring'] = ['']
+        if rng.random() < 0.75:
+            spec['group_coloring'] = ['']
         approx = True
     n = spec['comps'][0]['n']
     free = sorted(spec['init'])
